@@ -19,7 +19,7 @@ common.install(
     mutant_pool=lambda: common.corpus_entries("unused"),
     template=templates.unused_program,
     mix=(5, 10, 5),
-    budgets=(3200, 64000),
+    budgets=(3200, 32000),
     decl="free",
     level_text="Exploration: generated programs aimed at the usage scan / copy-rule short-circuiting are optimised with unused only and compared with the source under clingo on IN+OUT (answer sets and costs).",
 )
